@@ -626,6 +626,53 @@ fn chain_case(r: &mut Rng) -> Result<(), String> {
 	Ok(())
 }
 
+/// The built-in modulators free their slot like every other resource - at the next callback after the handle is dropped (the one
+/// after, if not yet picked up) - whatever they are in the middle of: a tweener that is idle, waiting for a delayed or
+/// clock-timed transition, or half-way through a long one; an LFO.
+fn modulator_slot_case(r: &mut Rng) -> Result<(), String> {
+	use kira::modulator::lfo::LfoBuilder;
+	use kira::modulator::tweener::TweenerBuilder;
+	let mut rig = Rig::new(RigConfig { sample_rate: 8000, ibs: 16, channels: 2, capacities: Capacities { modulator_capacity: 1, ..Default::default() } }, MainTrackBuilder::new());
+	let clock = rig.mgr.add_clock(ClockSpeed::TicksPerSecond(1.0)).map_err(|_| "clock")?;
+	let kind = r.below(5);
+	let what = ["an idle tweener", "a tweener waiting for a transition delayed by an hour", "a tweener waiting for tick 5 of a clock that is not running", "a tweener one buffer into a transition of an hour", "an LFO"][kind as usize];
+	let picked_up = r.chance(0.7);
+	if kind == 4 {
+		let h = rig.mgr.add_modulator(LfoBuilder::new()).map_err(|_| "lfo")?;
+		if picked_up {
+			rig.callback(16);
+		}
+		drop(h);
+	} else {
+		let mut h = rig.mgr.add_modulator(TweenerBuilder { initial_value: 0.0 }).map_err(|_| "tweener")?;
+		let hour = std::time::Duration::from_secs(3600);
+		match kind {
+			1 => h.set(1.0, kira::Tween { start_time: kira::StartTime::Delayed(hour), ..Default::default() }),
+			2 => h.set(1.0, kira::Tween { start_time: kira::StartTime::ClockTime(kira::clock::ClockTime::from_ticks_u64(clock.id(), 5)), ..Default::default() }),
+			3 => h.set(1.0, kira::Tween { duration: hour, ..Default::default() }),
+			_ => {}
+		}
+		if picked_up {
+			rig.callback(16);
+			rig.callback(16);
+		}
+		drop(h);
+	}
+	if rig.mgr.num_modulators() != 1 {
+		return Err(format!("{}: num_modulators() = {} right after the handle was dropped (the slot is held until the audio thread lets go)", what, rig.mgr.num_modulators()));
+	}
+	rig.callback(16);
+	if !picked_up {
+		rig.callback(16);
+	}
+	let n = rig.mgr.num_modulators();
+	let again = rig.mgr.add_modulator(TweenerBuilder { initial_value: 0.0 });
+	if n != 0 || again.is_err() {
+		return Err(format!("{} ({}): {} callback(s) after its handle was dropped num_modulators() = {} and a new modulator is {} (capacity 1)", what, if picked_up { "picked up" } else { "not yet picked up" }, if picked_up { 1 } else { 2 }, n, if again.is_err() { "refused" } else { "accepted" }));
+	}
+	Ok(())
+}
+
 fn stale_id_case(r: &mut Rng) -> Result<(), String> {
 	let mut rig = Rig::new(RigConfig { sample_rate: 8000, ibs: 16, channels: 2, capacities: Capacities { sub_track_capacity: 4, send_track_capacity: 1, clock_capacity: 1, modulator_capacity: 1, listener_capacity: 1 } }, MainTrackBuilder::new());
 	let inst = Tween { start_time: StartTime::Immediate, duration: Duration::ZERO, easing: Easing::Linear };
@@ -1004,7 +1051,7 @@ pub fn run(ctx: &mut Ctx) {
 			}
 			let mut r = Rng::for_case(ctx.seed, 802, i);
 			ctx.eval();
-			match super::guarded(|| stale_id_case(&mut r).and_then(|_| chain_case(&mut r))) {
+			match super::guarded(|| stale_id_case(&mut r).and_then(|_| chain_case(&mut r)).and_then(|_| modulator_slot_case(&mut r))) {
 				Ok(Ok(())) => ctx.distinct_key(0xC08_0002_0000_0000 | (i % 4)),
 				Ok(Err(e)) => ctx.violation("stale", i, &e, J::Null),
 				Err(p) => ctx.violation("stale", i, &format!("panic: {}", p.first().map(|p| p.sig()).unwrap_or_default()), J::Null),
